@@ -474,11 +474,14 @@ def _annotate_ast_startpos(
             isinstance(aast_node, (ast.FunctionDef, ast.ClassDef, AsyncFunctionDef))
             and aast_node.decorator_list
         ):
-            delta = (
-                aast_node.decorator_list[0].lineno - 1,
-                # The col_offset doesn't include the @
-                _char_col_offset(text, aast_node.decorator_list[0]) - 1,
-            )
+            decorator = aast_node.decorator_list[0]
+            decorator_col = _char_col_offset(text, decorator)
+            # The col_offset doesn't include the @, which may be followed by
+            # whitespace.
+            at_col = text.lines[decorator.lineno - 1].rfind("@", 0, decorator_col)
+            if at_col < 0:
+                at_col = decorator_col - 1
+            delta = (decorator.lineno - 1, at_col)
         else:
             delta = (aast_node.lineno - 1, _char_col_offset(text, aast_node))
 
